@@ -127,6 +127,24 @@ def _check_case(d, transport, f_replace, tmpdir):
             o1, o2 = model.slim_optimize(), m2.slim_optimize()
             if not (o1 == o2 or (o1 != o1 and o2 != o2) or abs(o1 - o2) <= 1e-9 * max(1, abs(o1))):
                 problems.append(("optimum differs", f"{o1} vs {o2}"))
+        if not problems and "bench_op" not in d:
+            # write, edit in place, write again - on the model that was written and on the model that was read (which
+            # carries whatever the reader attached to it): the second document describes the edited model
+            for who, mm in (("written", model), ("read", m2)):
+                try:
+                    iomodels.edit_in_place(mm)
+                    edited = sbml_view(mm)
+                    m4, _ = write_read(mm, transport, f_replace, tmpdir, "m4.xml")
+                    d4 = observe.diff(edited, sbml_view(m4))
+                    if d4:
+                        problems.append((f"{who} model written again after in-place edits: content differs at " +
+                                         _norm(observe.first_path(d4)), "\n".join(d4)))
+                except Exception as exc:
+                    problems.append((f"writing the {who} model after in-place edits raised " + type(exc).__name__, repr(exc)[:300]))
+            with warnings.catch_warnings():
+                warnings.simplefilter("ignore")
+                model = iomodels.build(d)
+                m2, path = write_read(model, transport, f_replace, tmpdir)
         if not problems:
             try:
                 m3, _ = write_read(m2, transport, f_replace, tmpdir, "m3.xml")
